@@ -244,7 +244,7 @@ def main():
     args = parse_args("C03"); ck = Check("C03", args.tier); thorough = args.tier == "thorough"
     symcore.Explorer.incremental = False
     import ImageD11.unitcell as UC
-    ck.encoded("ImageD11/unitcell.py:P/A/B/C/I/F/R and the outif table (CrossHair)", "ImageD11/unitcell.py:unitcell.gethkls (pysym, final sort cut away)", "ImageD11/unitcell.py:unitcell.ds", "ImageD11/unitcell.py:unitcell.makerings")
+    ck.encoded("ImageD11/unitcell.py:P/A/B/C/I/F/R and the outif table (CrossHair)", "ImageD11/unitcell.py:unitcell.gethkls (pysym, final sort cut away)", "ImageD11/unitcell.py:unitcell.ds", "ImageD11/unitcell.py:unitcell.makerings", "ImageD11/unitcell.py:unitcell.gethkls cache (limit, peaks) from an arbitrary cached state")
     H = 2 if thorough else 1
     ck.bound("centring rules: all integers h,k,l (unbounded)", "gethkls: all cells of the orthogonal family (reciprocal metric diag(x,y,z); thorough: also the monoclinic-b family as a stretch obligation) with every d* limit such that all reflections below the limit satisfy |h|,|k|,|l| <= %d; centrings P, I, F (thorough: all seven)" % H,
              "makerings: every ascending list of <= %d symbolic d* values and every tolerance > 0" % (5 if thorough else 4),
@@ -275,6 +275,24 @@ def main():
             if msg:
                 ck.violation(msg, "unitcell.py:gethkls:incomplete" if "missing" in msg and "missing []" not in msg else "unitcell.py:gethkls:unsound", dict(vals=o["vals"], family=fam, symmetry=sym)); done = True; break
         if not done: ck.not_reproduced("%s: model says %s" % (name, badp[0]["bad"][:2]))
+    # ---- the (limit, peaks) cache of gethkls: from an ARBITRARY cached state the cached list may only be handed back for the same limit,
+    # and a recomputation must leave the cache describing the list it returned (inductive step over call histories)
+    SENT = [["cached-list-sentinel"]]
+    def cache_run():
+        uc, dsmax, inputs, gi = family(UC, "orthogonal", "P", 0)            # box 0: the walk itself is trivial here (it is covered above)
+        L = z3.Real("L"); CTX.hyp.append(L > 0); uc.limit = LazySqrt(L); uc.peaks = SENT
+        out = gethkls(uc, dsmax); D = inputs["D"]
+        if out is SENT: goals = [("gethkls hands back the cached list only when asked for the cached limit", D == L)]
+        else: goals = [("after a recomputation the cache holds the returned list and its limit", z3.BoolVal(uc.peaks is out and uc.limit is dsmax))]
+        return dict(goals=goals, inputs=dict(inputs, L=L))
+    def replay_cache(vals, label):
+        a, b, c = [1.0 / math.sqrt(vals[k]) for k in ("gi00", "gi11", "gi22")]
+        for lim1, lim2 in ((math.sqrt(vals["L"]), math.sqrt(vals["D"])), (3.1 / min(a, b, c), 1.2 / min(a, b, c)), (1.2 / min(a, b, c), 3.1 / min(a, b, c))):
+            u = UC.unitcell([a, b, c, 90, 90, 90], "P"); u.gethkls(lim1); got = [tuple(p[1]) for p in u.gethkls(lim2)]
+            want = [tuple(p[1]) for p in UC.unitcell([a, b, c, 90, 90, 90], "P").gethkls(lim2)]
+            if sorted(got) != sorted(want): return True, "unitcell(%s).gethkls(%r) after gethkls(%r) returns %d reflections, a fresh object returns %d" % ([a, b, c, 90, 90, 90], lim2, lim1, len(got), len(want))
+        return False, "second call equals a fresh object's list"
+    harness.run_identities(ck, "gethkls-cache", cache_run, replay_cache, 20000, keyfn=lambda n, l: "unitcell.py:gethkls:stale-cache")
     for n in range(1, (5 if thorough else 4) + 1):
         name = "makerings[n=%d]" % n
         outs = harness.par_paths(ck, make_rings_run(UC, n), on_rings_path(n), depth=3)
